@@ -39,6 +39,7 @@ def c05(tier, seed):
 
 
 ENGINES = {
+    "hex": ({"C14"}, "LowerHex/UpperHex vs per-byte reference; built with and without faster-hex"),
     "cmpfmt": ({"C13"}, "comparison / hashing / Debug vs slice; recording hasher; map lookups"),
     "order": ({"C08"}, "call-order recorders over generate/map/zip/fold/clone/default x receiver forms"),
     "chunks": ({"C10"}, "chunk regrouping: partition arithmetic on addresses/extents for every L, write-through, N = 0"),
@@ -240,7 +241,42 @@ def c13(tier, seed):
             Run("cmpfmt", "miri", ["--maxn", "2", "--budget", "3"], shards=16, label="cmpfmt/miri(N<=2)")]
 
 
+def c14(tier, seed):
+    if tier == "quick":
+        return [
+            Run("hex", "debug", ["--maxn", "4096"], shards=4, label="hex/debug(default)"),
+            Run("hex", "fhex-debug", ["--maxn", "4096"], shards=4, label="hex/debug(faster-hex)"),
+            Run("hex", "miri", ["--maxn", "17"], shards=16, label="hex/miri(fallback,N<=17)"),
+        ]
+    return [
+        Run("hex", "debug", ["--maxn", "4096"], shards=8, label="hex/debug(default)"),
+        Run("hex", "fhex-debug", ["--maxn", "4096"], shards=8, label="hex/debug(faster-hex)"),
+        Run("hex", "release", ["--maxn", "4096"], shards=8, label="hex/release(default)"),
+        Run("hex", "fhex-release", ["--maxn", "4096"], shards=8, label="hex/release(faster-hex)"),
+        Run("hex", "miri", ["--maxn", "256"], shards=32, label="hex/miri(fallback,N<=256)"),
+        Run("hex", "fhex-asan", ["--maxn", "4096"], shards=8, label="hex/asan(faster-hex)"),
+        Run("hex", "fhex-memcheck", ["--maxn", "1024"], shards=16, label="hex/memcheck(faster-hex)"),
+    ]
+
+
 SPECS = {
+    "C14": dict(
+        engine="hex",
+        technique="reference-model monitor: per-byte {:02x}/{:02X} concatenation truncated to the precision, for every precision on small N and boundary/random precisions on large N, in two feature builds; ASan/memcheck on the SIMD build, Miri on the fallback",
+        level="exploration",
+        level_text=("N in 0..=17, 31..=33, 255, 256, 1023, 1024, 1025, 2047..2049, 3000, 4096 (all three internal strategies and both thresholds from "
+                    "both sides) x six byte patterns (all 256 byte values tiled, 0xFF, 0x0F, 0xF0, two random) x lower/upper case x every precision "
+                    "0..=2N+2 for N<=33 and boundary/odd/random precisions (around 2047, 2048, 4095, 4096, 2N) for large N: the output must be exactly "
+                    "the first min(p,2N) characters of the per-byte reference. The binary is built without and with faster-hex; both must match the "
+                    "reference, hence each other."),
+        level_note="Trusted: core's {:02x} for u8 as the reference. Miri can only run the fallback encoder (the crate disables faster-hex under cfg(miri)); ASan/memcheck cover the SIMD build in thorough.",
+        runs=c14,
+        min_cases=8000,
+        exhaustive={"quick": True, "thorough": True},
+        rule="one case = (feature build, N, byte pattern, precision or none), both cases checked inside; non-trivial = N > 0",
+        explanation="string equality with the reference; first differing character reported",
+        assumptions=["precisions above 65535 are rejected by core::fmt itself and are not generated"],
+    ),
     "C13": dict(
         engine="cmpfmt",
         technique="reference-model monitor: every comparison operator, a recording Hasher, map lookups through Borrow<[T]> and Debug under 26 literal + 70 dynamic flag combinations, against the slice of the same elements",
